@@ -159,6 +159,7 @@ type world struct {
 	clock    int
 	exhausted bool
 	issued   int
+	redialBy []int // the library thread (read loop or write loop) that made each redial attempt
 	healthyClosed []int // connections the library closed although no failure was injected on them and Close was not called
 }
 
@@ -169,6 +170,7 @@ func (w *world) dial(cfg transport.DialConfig) (transport.Transport, error) {
 	if n > 0 && vsched.ChooseBudget(fmt.Sprintf("dial-fail#%d", n), 2, vsched.BudF) == 1 {
 		w.failures++
 		w.redials = append(w.redials, false)
+		w.redialBy = append(w.redialBy, vsched.ThreadID())
 		return nil, fmt.Errorf("fake: dial refused")
 	}
 	f := &fakeTr{w: w, idx: len(w.trs), cfg: cfg}
@@ -182,6 +184,7 @@ func (w *world) dial(cfg transport.DialConfig) (transport.Transport, error) {
 			f.inbox = append(f.inbox, []byte("hello"))
 			w.redials = append(w.redials, true)
 		}
+		w.redialBy = append(w.redialBy, vsched.ThreadID())
 	}
 	w.trs = append(w.trs, f)
 	return f, nil
@@ -359,19 +362,26 @@ func run(sc vlib.Scenario, cfg vsched.Config) (*vsched.Result, vlib.Verdict) {
 	if len(w.healthyClosed) > 0 {
 		v.Fail("C18.redial", fmt.Sprintf("healthy-connection-closed/dev=%v", dev), "the transport closed connection(s) %v although they had not failed and Close had not been called (%d failures injected, %d dials)", w.healthyClosed, w.failures, len(w.dials))
 	}
-	// the redial budget: the transport gives up after exactly MaxReconnectAttempts consecutive failed attempts
-	if w.deadBeforeClose {
-		run := 0
-		for i := len(w.redials) - 1; i >= 0 && !w.redials[i]; i-- {
-			run++
+	// the redial budget: one redial (the attempts of one loop, contiguous because the transport's mutex serialises the
+	// redials of the read loop and of the write loop) makes at most MaxReconnectAttempts failed attempts, and the transport
+	// gives up only when one redial has made exactly that many. (A redial of the other loop may still run, and even
+	// succeed, between a loop's decision to give up and its taking effect: the budget was exhausted all the same.)
+	longest, cur := 0, 0
+	for i, ok := range w.redials {
+		if ok || (i > 0 && w.redialBy[i] != w.redialBy[i-1]) {
+			cur = 0
 		}
-		if run != w.p.Attempts {
-			kind := "gave-up-early"
-			if run > w.p.Attempts {
-				kind = "over-budget"
-			}
-			v.Fail("C18.budget", kind, "the transport gave up after %d consecutive failed redial attempts, MaxReconnectAttempts is %d (attempt outcomes %v)", run, w.p.Attempts, w.redials)
+		if !ok {
+			cur++
 		}
+		if cur > longest {
+			longest = cur
+		}
+	}
+	if longest > w.p.Attempts {
+		v.Fail("C18.budget", "over-budget", "one redial made %d consecutive failed attempts, MaxReconnectAttempts is %d (attempt outcomes %v by threads %v)", longest, w.p.Attempts, w.redials, w.redialBy)
+	} else if w.deadBeforeClose && longest < w.p.Attempts {
+		v.Fail("C18.budget", "gave-up-early", "the transport gave up although no redial had made more than %d consecutive failed attempts, MaxReconnectAttempts is %d (attempt outcomes %v by threads %v)", longest, w.p.Attempts, w.redials, w.redialBy)
 	}
 	if len(w.laterOK) > 0 {
 		v.Fail("C18.later", "write-accepted-on-dead-transport", "Write %s returned nil although the transport was already dead", w.laterOK[0])
